@@ -167,6 +167,18 @@ partial def showVal : Val → String
 partial def showVals (vs : List Val) : String := String.join (vs.map fun v => " " ++ showVal v)
 end
 
+/-- Canonical form for comparisons: map entries sorted by the printed key. -/
+partial def canon : Val → Val
+  | .struct fs => .struct (fs.map canon)
+  | .slice nl es c => .slice nl (es.map canon) c
+  | .ptr w => .ptr (canon w)
+  | .map nl ks vs =>
+    let es := ((ks.map canon).zip (vs.map canon)).toArray.qsort (fun a b =>
+      let ka := showVal a.1; let kb := showVal b.1
+      ka < kb || (ka == kb && showVal a.2 < showVal b.2))
+    .map nl (es.toList.map (·.1)) (es.toList.map (·.2))
+  | v => v
+
 def showGetOut : GetOut → String
   | .none => "none"
   | .err => "err"
